@@ -403,6 +403,10 @@ fn monitor(term: &Term, c: &CaseView, key: &str, ti: usize, bi: usize, reported:
     if p.y < first || p.y > first + (h - 1).max(0) {
         bad.push((if p.y < first { "y-above-window" } else { "y-below-window" }, json!({"y": p.y, "first_visible": first, "height": h})));
     }
+    // the screen the cursor is measured against is the one the emulation was started with (monitoring stops after a resize request)
+    if w != c.w || h != c.h {
+        bad.push(("terminal-size-changed", json!({"terminal": [w, h], "initial": [c.w, c.h]})));
+    }
     if c.emu.is_fixed_grid() {
         let sz = term.buf.get_size();
         if sz.width != c.w || sz.height != c.h || term.buf.terminal_state.get_width() != c.w || term.buf.terminal_state.get_height() != c.h {
